@@ -9,7 +9,9 @@ from __future__ import annotations
 import argparse
 import faulthandler
 import hashlib
+import itertools
 import json
+import re
 import multiprocessing
 import os
 import subprocess
@@ -152,6 +154,9 @@ def write_replay(prop, seed, n, payload):
 def do_replay(path, quiet=False):
     with open(path) as f:
         payload = json.load(f)
+    if payload.get("python_flags") == ["-O"] and not sys.flags.optimize:
+        # found by the slice that runs under `python -O` (asserts compiled away): replay it the same way
+        return subprocess.run([sys.executable, "-O", "-m", "tpsim.check", "--replay", path], timeout=900).returncode
     prop = payload["property"]
     eng = get_engine(prop)
     res = eng.replay(prop, payload)
@@ -179,6 +184,8 @@ def main(argv=None):
     ap.add_argument("--jobs", type=int, default=int(os.environ.get("VERIF_JOBS", "0") or 0))
     ap.add_argument("--budget", type=float, default=None)
     ap.add_argument("--no-evidence", action="store_true")
+    ap.add_argument("--opt-slice", action="store_true", help="(internal) every 9th unit, run under python -O")
+    ap.add_argument("--no-opt-slice", action="store_true", help="skip the additional slice under python -O")
     a = ap.parse_args(argv)
     import warnings
     warnings.filterwarnings("ignore", category=RuntimeWarning, message="coroutine .* was never awaited")
@@ -195,6 +202,8 @@ def main(argv=None):
     print(f"check {prop} tier={tier} seed={a.seed} jobs={jobs} budget={budget}s src={repo_src()}")
     t0 = time.time()
     unit_iter = eng.units(prop, tier, a.seed)
+    if a.opt_slice:
+        unit_iter = itertools.islice(unit_iter, 3, None, 9)
     total, wall = run_units(prop, unit_iter, jobs, budget, chunk=eng.CHUNK.get(tier, 40))
     if total.errors:
         for u, tb in total.errors[:3]:
@@ -231,20 +240,40 @@ def main(argv=None):
             if n >= 3:
                 break
             payload = eng.minimise(prop, v)
-            path = write_replay(prop, a.seed, n, payload)
+            if sys.flags.optimize:
+                payload["python_flags"] = ["-O"]
+            path = write_replay(prop, str(a.seed) + ("-O" if sys.flags.optimize else ""), n, payload)
             n += 1
             # confirm in a fresh interpreter
             env = dict(os.environ)
-            r = subprocess.run([sys.executable, "-m", "tpsim.check", "--replay", path], env=env,
+            r = subprocess.run([sys.executable] + (["-O"] if sys.flags.optimize else []) + ["-m", "tpsim.check", "--replay", path], env=env,
                                capture_output=True, text=True, timeout=300)
             confirmed = r.returncode == 1
             out_lines.append(f"violation {v['prop']}/{v['oracle']}: {v['msg']}"
                              + ("" if confirmed else "  [replay in fresh process did NOT reproduce]"))
             out_lines.append(f"VIOLATION property={prop} replay={path}")
             replay_paths.append(path)
+    opt_slice = None
+    if status == 0 and not a.opt_slice and not a.no_opt_slice and not sys.flags.optimize:
+        # process-level configuration the schedule search cannot vary from inside: the same units, every 9th of them,
+        # once more in an interpreter started with -O (assert statements - and anything done inside them - compiled away)
+        cmd = [sys.executable, "-O", "-m", "tpsim.check", prop, "--tier", tier, "--seed", str(a.seed), "--opt-slice", "--no-evidence",
+               "--jobs", str(jobs), "--budget", str(max(5.0, budget / 5.0))]
+        r = subprocess.run(cmd, capture_output=True, text=True, timeout=7200)
+        m = re.search(r"evaluations=(\d+)", r.stdout)
+        opt_slice = {"python_flags": ["-O"], "evaluations": int(m.group(1)) if m else 0, "exit": r.returncode}
+        if r.returncode != 0:
+            status = r.returncode if r.returncode in (1, 2) else 2
+            for ln in r.stdout.split("\n"):
+                if ln.startswith(("violation ", "VIOLATION ", "HARNESS-ERROR")):
+                    out_lines.append(ln + ("   [under python -O]" if ln.startswith("violation ") else ""))
+            if r.returncode not in (1, 2) or (r.returncode == 2):
+                out_lines.append("HARNESS-ERROR: the python -O slice failed:\n" + (r.stdout + r.stderr)[-600:])
     wall = time.time() - t0
     ev = eng.evidence(prop, tier, a.seed, total, wall, known_hit, real)
     ev["violations"] = len(real)
+    if opt_slice is not None:
+        ev["coverage"]["optimized_interpreter_slice"] = opt_slice
     if not a.no_evidence:
         os.makedirs(EVIDENCE, exist_ok=True)
         with open(os.path.join(EVIDENCE, f"{prop}.json"), "w") as f:
